@@ -132,6 +132,16 @@ DESC = {
     'C17-6': ('Solver.__init__ re-declares the motor pwm history as an empty list', 'a second Solver bound to an already simulated powertrain'),
     'C18-5': ('clamp of the snapshot target into the recorded range removed', 'snapshot at the last instant written in another time unit'),
     'C18-6': ('snapshot returns the frame rounded to 6 decimals when print_data is on', 'print_data=True (the default)'),
+    'C01-5': ('ratio taken from master_gear_ratio only when the element\'s mating role is slave', 'an idler gear: three or more gears meshing in series'),
+    'C01-6': ('acceleration step returns early when the net torque of the last element is exactly zero', 'zero external load, duty cycle inside the dead zone, drive coasting'),
+    'C09-5': ('tooth force and stresses not refreshed while a self-locking drive is held', 'held phase during which the load changes'),
+    'C09-6': ('Lewis factor interpolation extrapolates beyond the table', 'teeth number (or virtual teeth number) above 500'),
+    'C14-5': ('proposals collected with isinstance(value, float)', 'a rule proposing a Python int (0, 1, -1)'),
+    'C14-6': ('apply_rules binds the tuple of rule.apply methods on its first call', 'use the control, add a rule, use it again'),
+    'C15-5': ('ConstantPWM.apply written as `active and value or None`', 'a constant duty cycle of 0'),
+    'C15-6': ('StartProportional: a given pwm_min overrides the computed minimum', 'pwm_min supplied together with a non-null computed minimum'),
+    'C16-5': ('threshold converted once and cached as a bare number', 'the unit of the sensed quantity changes during the life of the StopCondition'),
+    'C16-6': ('stop check tested with `is True`', 'numpy-typed values in the simulation (numpy.bool_ comparison results)'),
 }
 
 
